@@ -126,7 +126,7 @@ def _global_events(lines: list[str]) -> list[list]:
 
 # lines that say nothing about notes or star power: track events (whatever their word) and lines that are
 # not of the format (special phrases other than type 2, lane 8, ...), which are skipped with a warning
-_INERT = ["E *", "E T", "E solo", "S 64 {n}", "E soloend", "S 0 {n}", "S 1 {n}", "E N", "E 5", "S 65 {n}",
+_INERT = ["E *", "E T", "E O", "E solo", "S 64 {n}", "E soloend", "S 0 {n}", "S 1 {n}", "E N", "E 5", "S 65 {n}",
           "N 8 0", "E forced", "E tap", "S 66 {n}", "E sp", "E S", "N 9 {n}", "E 6", "S 3 {n}", "E hopo"]
 
 
